@@ -183,6 +183,8 @@ def o5(W, ob):
                  'P2PSession::new does not force sparse_saving = false when max_prediction == 0: ' + desc, where(f, s.line))
 
 
+from . import helpers
+
 OBLIGATIONS = [
     ('C04.O1', 'the gate', 'The new-frame step implies current - last_confirmed < max_prediction (current < max_prediction '
      'while nothing is confirmed). A stricter gate passes, a weaker one does not.', o1),
@@ -193,4 +195,5 @@ OBLIGATIONS = [
      'inputs come from confirmed_inputs; only Confirmed/Disconnected are built there.', o4),
     ('C04.O6', 'the confirmed frame both gates read is the min over connected players (= C03.O4)', 'see C03.O4', c03.o4),
     ('C04.O5', 'sparse saving off in lockstep', 'P2PSession::new stores sparse_saving = false when max_prediction == 0.', o5),
+    ('C04.H', 'helpers the rules above rely on', 'the bodies of the helpers named by this property\'s rules compute what the rules assume (player_input, get_cell); see rules/helpers.py', helpers.bundle('player_input', 'get_cell')),
 ]
